@@ -572,7 +572,12 @@ def transient_failures(ctx):
     for k, exc, qs, live in cases:
         for cache in (True, False):
             with hang_guard(30, "transient failure at %d, queries %s" % (k, ";".join(q_wire(q) for q in qs))):
-                obs, want, errs, bad = run_transient(k, exc, cache, qs, live)
+                try:
+                    obs, want, errs, bad = bounded(lambda: run_transient(k, exc, cache, qs, live), "transient failure at %d, queries %s" % (k, ";".join(q_wire(q) for q in qs)))
+                except Blocked as ex:
+                    ctx.case(("transient", k, exc, cache, tuple(qs), live), nontrivial=True)
+                    blocked_violation(ctx, ex, {"kind": "transient", "k": k, "exc": exc, "cache": cache, "qs": [list(q) for q in qs], "live": list(live) if live else None})
+                    continue
             ctx.case(("transient", k, exc, cache, tuple(qs), live), nontrivial=True)
             ctx.count("transient_failure_histories")
             if len(errs) > 1 or bad:
@@ -617,7 +622,11 @@ def run_mutator_case(mut, warm, n, rq, segs):
     ref = build(False)
     MUTATIONS[mut](ref, R)
     probes = [("all",), ("cnt",), ("idx", -1)]
-    return st, [rrlib.impl_query(s, q) for q in probes], [rrlib.impl_query(ref, q) for q in probes], ",".join(trace)
+    try:
+        got = bounded(lambda: [rrlib.impl_query(s, q) for q in probes], "list / count / [-1] after the mutator call")
+    except Blocked as ex:
+        got = ["blocked: %s" % ex] * 3
+    return st, got, [rrlib.impl_query(ref, q) for q in probes], ",".join(trace)
 
 
 def mutator_schedules(ctx):
@@ -662,8 +671,14 @@ def twin_histories(ctx):
     for i in range(ctx.budget(400, 4000)):
         mode = "plain" if i % 2 else "live"
         ops = c10.shaped_history(rng, mode) if i % 3 else c10.gen_history(rng, mode)
-        obs_c, _, _ = c10.run_impl(True, ops)
-        obs_u, _, _ = c10.run_impl(False, ops)
+        try:
+            obs_c = bounded(lambda: c10.run_impl(True, ops)[0], "history %s on a cached set" % c10.describe(ops)[:200])
+            obs_u = bounded(lambda: c10.run_impl(False, ops)[0], "history %s on an uncached set" % c10.describe(ops)[:200])
+        except Blocked as ex:
+            table, uses = c10.member_table(ops)
+            ctx.case(("twin", c10.describe(ops)), nontrivial=True)
+            blocked_violation(ctx, ex, {"kind": "twin", "history": c10.describe(ops), "failing_op": -1, "members": table, "member_uses": uses})
+            continue
         ctx.case(("twin", c10.describe(ops)), nontrivial=c10.nontrivial_history(ops, obs_u))
         ctx.count("twin_histories")
         for j, (a, b) in enumerate(zip(obs_c, obs_u)):
@@ -673,6 +688,47 @@ def twin_histories(ctx):
                               % (j, c10.op_wire(ops[j]), c10.describe(ops)[:300], a[:200], b[:200]),
                               {"kind": "twin", "history": c10.describe(ops), "failing_op": j, "members": table, "member_uses": uses}, None)
                 break
+
+
+class Blocked(Exception):
+    """an operation on the real objects did not return: its thread sits in `_iter_cached` (blocked on the cache lock with nobody left to
+    release it) — the property fails ("every operation completes"), this is not a time-out of the check"""
+    def __init__(self, what, where):
+        Exception.__init__(self, "%s: blocked at %s" % (what, where))
+        self.where = where
+
+
+def bounded(fn, what, secs=20):
+    """run `fn` (real iterators, the real lock, one thread) in a worker thread.  If it has not returned after `secs` seconds its stack is
+    inspected: a frame of `_iter_cached` (or of a lock acquisition under it) means the operation is BLOCKED on the cache lock -> `Blocked`
+    (reported as a violation by the caller); anything else is an infrastructure error.  The worker is a daemon thread: it stays parked."""
+    import threading, sys
+    box = {}
+
+    def body():
+        try:
+            box["v"] = fn()
+        except BaseException as ex:
+            box["e"] = ex
+    t = threading.Thread(target=body, daemon=True)
+    t.start()
+    t.join(secs)
+    if t.is_alive():
+        fr = sys._current_frames().get(t.ident)
+        where = []
+        while fr is not None:
+            where.append("%s:%d" % (fr.f_code.co_name, fr.f_lineno))
+            fr = fr.f_back
+        if any(w.startswith("_iter_cached:") for w in where):
+            raise Blocked(what, where[:4])
+        raise InfraError("no return within %d s and not blocked in _iter_cached: %s at %s" % (secs, what, where[:6]))
+    if "e" in box:
+        raise box["e"]
+    return box["v"]
+
+
+def blocked_violation(ctx, ex, case):
+    ctx.violation("an operation does not complete: %s" % ex, case, None)
 
 
 class InfraError(Exception):
@@ -738,7 +794,11 @@ def generator_raises(ctx):
             s = R.rruleset(cache=cache)
             s.rrule(Flaky(L, k))
             with hang_guard(30, "queries %s on a %s set whose generator raises after %d values" % (";".join(q_wire(q) for q in qs), "cached" if cache else "uncached", k)):
-                per[cache] = [rrlib.impl_query(s, q).replace(" ", "_") for q in qs]
+                try:
+                    per[cache] = bounded(lambda: [rrlib.impl_query(s, q).replace(" ", "_") for q in qs], "queries %s on a set whose generator raises" % ";".join(q_wire(q) for q in qs))
+                except Blocked as ex:
+                    per[cache] = ["blocked"] * len(qs)
+                    blocked_violation(ctx, ex, {"kind": "genraise", "k": k, "qs": [list(q) for q in qs]})
             reqs.append("query.runx %s %d %d %s" % (ilist(L), k, int(cache), ";".join(q_wire(q) for q in qs)))
         outs.append(per)
     try:
@@ -886,7 +946,11 @@ def replay(ctx, payload):
               % (len(objs), nl, sched.seg_wire(segs), st, res))
         return all(x == "done" for x in st) and all(g == py_query(exp[o], q) for (o, q), g in zip(jobs, res))
     if c.get("kind") == "transient":
-        obs, want, errs, bad = run_transient(c["k"], c["exc"], c["cache"], [tuple(q) for q in c["qs"]], tuple(c["live"]) if c.get("live") else None)
+        try:
+            obs, want, errs, bad = bounded(lambda: run_transient(c["k"], c["exc"], c["cache"], [tuple(q) for q in c["qs"]], tuple(c["live"]) if c.get("live") else None), "transient history")
+        except Blocked as ex:
+            print("replay transient: %s" % ex)
+            return False
         print("replay transient failure (%s once before value %d, %s set): %s -> %d operations end with the error, wrong answers %s"
               % (c["exc"], c["k"], "cached" if c["cache"] else "uncached", [(n, (o if isinstance(o, str) else "%d values" % len(o))[:40]) for n, o in obs], len(errs), bad[:2]))
         return len(errs) <= 1 and not bad
@@ -898,7 +962,11 @@ def replay(ctx, payload):
     if c.get("kind") == "twin":
         import props.c10 as c10
         ops = c10.parse_history(c["history"], c.get("members"), c.get("member_uses"))
-        obs_c, _, _ = c10.run_impl(True, ops)
+        try:
+            obs_c = bounded(lambda: c10.run_impl(True, ops)[0], "history on a cached set")
+        except Blocked as ex:
+            print("replay twin: %s" % ex)
+            return False
         ops = c10.parse_history(c["history"], c.get("members"), c.get("member_uses"))
         obs_u, _, _ = c10.run_impl(False, ops)
         for op, a, b in zip(ops, obs_c, obs_u):
